@@ -230,12 +230,27 @@ func nonPositive(f *Facts, t *Term, depth int) bool {
 }
 
 // vacuous: the effect lies in a loop whose trip count is provably <= 0.
-func vacuous(e *Effect) bool {
-	if (e.Kind == ECopy || e.Kind == EClear) && e.N != nil && nonPositive(e.Facts, e.N, 0) {
+// nonVacuous drops the effects whose loops or counts are empty under the path's final conditions (conditions on
+// entry values established after the effect hold for the whole path).
+func nonVacuous(es []*Effect, path *Facts) []*Effect {
+	var out []*Effect
+	for _, e := range es {
+		if !vacuousUnder(e, factsWith(e.Facts, path)) {
+			out = append(out, e)
+		}
+	}
+	return out
+}
+
+func vacuous(e *Effect) bool { return vacuousUnder(e, e.Facts) }
+
+func vacuousUnder(e *Effect, facts *Facts) bool {
+	f := withZeroAtoms(facts)
+	if (e.Kind == ECopy || e.Kind == EClear) && e.N != nil && nonPositive(f, e.N, 0) {
 		return true
 	}
 	for _, l := range e.Loops {
-		if l.TripPoly != nil && nonPositive(e.Facts, l.Trip, 0) {
+		if l.TripPoly != nil && nonPositive(f, l.Trip, 0) {
 			return true
 		}
 	}
@@ -449,18 +464,27 @@ func returnsCount(fn *ssa.Function) bool {
 }
 
 // boundsImplied: the index or slice bounds are implied by the facts at the effect.
-func boundsImplied(e *Effect) bool {
-	f := e.Facts
+func boundsImplied(e *Effect) bool { return boundsImpliedUnder(e, e.Facts) }
+
+func boundsImpliedUnder(e *Effect, facts *Facts) bool {
+	f := withZeroAtoms(facts)
+	// a bound that is zero on the degenerate input (e.g. the frame count of an empty buffer) is read as 0
+	nz := func(t *Term) *Poly {
+		if t != nil && isIntLike(t.Typ) && isZeroUnder(f, t, 0) {
+			return newPoly()
+		}
+		return normInt(t)
+	}
 	if e.Note == "slice" {
-		lo, hi := normInt(e.Lo), normInt(e.Hi)
-		capEnd := normInt(e.N)
+		lo, hi := nz(e.Lo), nz(e.Hi)
+		capEnd := nz(e.N)
 		if e.Max != nil {
-			mx := normInt(e.Max)
+			mx := nz(e.Max)
 			return f.impliesGE0(lo) && f.impliesGE0(hi.Sub(lo)) && f.impliesGE0(mx.Sub(hi)) && f.impliesGE0(capEnd.Sub(mx))
 		}
 		return f.impliesGE0(lo) && f.impliesGE0(hi.Sub(lo)) && f.impliesGE0(capEnd.Sub(hi))
 	}
-	idx, ln := normInt(e.Idx), normInt(e.Hi)
+	idx, ln := nz(e.Idx), nz(e.Hi)
 	return f.impliesGE0(idx) && f.impliesGE0(ln.Sub(idx).AddInt(-1))
 }
 
